@@ -22,7 +22,8 @@ ASSUMPTIONS = ['time- and randomness-dependent formulas (NOW/TODAY/RAND/UUID/REQ
 REQUIRED = {'reply_compares': {'quick': 700, 'thorough': 10000},
             'bundles_where_name_set_order_differs': {'quick': 300, 'thorough': 2000},
             'themed_bundles_ok': {'quick': 100, 'thorough': 900}}
-SHARD_TIMEOUT = {'quick': 240, 'thorough': 1500}
+SHARD_TIMEOUT = {'quick': 300, 'thorough': 2400}
+TIMEOUT = 180.0    # seconds per engine call (watchdog => inconclusive); generous because the machine is shared
 
 WEIGHTS = {'rename_column': 6, 'rename_table': 3, 'remove_column': 5, 'remove_table': 1.5, 'modify_type': 3,
            'create_summary': 5, 'update_summary': 4, 'detach_summary': 1, 'set_display_formula': 4, 'add_empty_rule': 2,
@@ -35,7 +36,7 @@ FLAGS = {'max_tables': 7, 'max_cols': 12, 'max_rows': 9, 'bundle_multi': 0.35}
 
 def plan(tier, seed):
   if tier == 'quick':
-    n, steps, k = 16, 30, 3
+    n, steps, k = 15, 30, 3      # 15 histories + the regression shard = 16 shards
   else:
     n, steps, k = 64, 45, 6
   return [{'regression': 'record_set_orders', 'k': k}] + \
@@ -380,7 +381,7 @@ def run_regressions(spec, acc):
   for name, bundles in sorted(REGRESSIONS.items()):
     replies = []
     for hs in range(spec['k']):
-      with EngineProc(hashseed=hs) as p:
+      with EngineProc(hashseed=hs, timeout=TIMEOUT) as p:
         p.init_doc()
         last = None
         for b in bundles:
@@ -403,6 +404,6 @@ def run_shard(spec, acc):
   if spec.get('regression'):
     return run_regressions(spec, acc)
   k = spec['k']
-  h = HashHistory(acc, spec['hseed'], [{'hashseed': j} for j in range(k)], spec['steps'], weights=WEIGHTS, flags=FLAGS,
+  h = HashHistory(acc, spec['hseed'], [{'hashseed': j, 'timeout': TIMEOUT} for j in range(k)], spec['steps'], weights=WEIGHTS, flags=FLAGS,
                   gen_cls=HashGen, raw_snapshots=True)
   h.run()
